@@ -621,7 +621,13 @@ func buildIN(g *gen, n int) []*IN {
 		if g.r.Chance(g.pnil, 8) {
 			return nil
 		}
-		switch r.Intn(22) {
+		switch r.Intn(23) {
+		case 22:
+			// an array of STRUCTS as interface payload: its elements hold pointers, maps and
+			// further payloads, so it has to be copied element by element (seeded C02-q)
+			if depth < 2 {
+				return [2]IN{{Any: payload(i, depth+1), Tag: 200 + i, MA: map[string]interface{}{"k": nodes[i]}}, {PI: ints[r.Intn(2)]}}
+			}
 		case 19:
 			t := g.target(i, n)
 			if t < 0 {
